@@ -25,6 +25,11 @@ type goPanic struct {
 	where string
 }
 
+type nativeCall struct {
+	n      *Native
+	method string
+}
+
 type frame struct {
 	fn       *ssa.Function
 	env      map[ssa.Value]Value
@@ -353,6 +358,13 @@ func (e *Engine) call(fnv Value, args []Value, site ssa.Instruction) Value {
 		return e.callFunction(fn.Fn, args, fn.Env, site)
 	case *ssa.Builtin:
 		return e.callBuiltin(fn, args, site)
+	case *nativeCall:
+		m, ok := nativeMethods[fn.n.Kind+"."+fn.method]
+		if !ok {
+			e.abort("unsupported", "method %s on engine object %s has no model at %s", fn.method, fn.n.Kind, e.posOf(site))
+		}
+		e.model[fn.n.Kind+"."+fn.method] = true
+		return m(e, fn.n, args[1:], site)
 	case nil:
 		e.goPanicf(site, "call of nil function")
 	}
@@ -384,6 +396,9 @@ func (e *Engine) callFunction(fn *ssa.Function, args []Value, env []Value, site 
 	if v, ok := e.generatedEnumString(fn, args); ok {
 		return v
 	}
+	if v, ok := e.protoReflectOf(fn, args); ok {
+		return v
+	}
 	if fn.Blocks == nil {
 		// synthesized wrappers have bodies after Build; truly external otherwise
 		e.abort("unsupported", "call to function without body and without model: %s (at %s)", key, e.posOf(site))
@@ -393,7 +408,18 @@ func (e *Engine) callFunction(fn *ssa.Function, args []Value, env []Value, site 
 	}
 	e.depth++
 	e.stack = append(e.stack, key)
-	defer func() { e.depth--; e.stack = e.stack[:len(e.stack)-1] }()
+	defer func() {
+		if r := recover(); r != nil {
+			if e.bugStack == nil {
+				e.bugStack = append([]string{}, e.stack...)
+			}
+			e.depth--
+			e.stack = e.stack[:len(e.stack)-1]
+			panic(r)
+		}
+		e.depth--
+		e.stack = e.stack[:len(e.stack)-1]
+	}()
 	e.noteFunc(key, false, countInstrs(fn))
 
 	fr := &frame{fn: fn, env: make(map[ssa.Value]Value, 32), site: site}
@@ -512,6 +538,7 @@ func (e *Engine) runBlocks(fr *frame) {
 			case *ssa.RunDefers:
 				e.runDefers(fr)
 			default:
+				e.cur = in
 				e.exec(fr, in)
 			}
 		}
@@ -738,8 +765,11 @@ func (e *Engine) prepareCall(fr *frame, c *ssa.CallCommon, site ssa.Instruction)
 		if recv.T == nil {
 			e.goPanicf(site, "nil interface method call %s", c.Method.Name())
 		}
-		fn := e.lookupMethod(recv.T, c.Method, site)
-		fnv = fn
+		if n, ok := recv.V.(*Native); ok && n != nil {
+			fnv = &nativeCall{n: n, method: c.Method.Name()}
+		} else {
+			fnv = e.lookupMethod(recv.T, c.Method, site)
+		}
 		args = append(args, recv.V)
 	} else {
 		fnv = e.get(fr, c.Value)
@@ -1379,6 +1409,21 @@ func (e *Engine) lenOf(v Value) *Term {
 		return mkBV(64, uint64(len(x)))
 	case Bytes:
 		return strLen(x.T)
+	case JBytes:
+		return mkBV(64, 2) // any JSON document has at least two bytes; only emptiness is observed
+	case MBytes:
+		// binary encoding of a message is empty iff every field has its default value
+		allZero := tTrue
+		if st, ok := x.Snap.(Struct); ok {
+			for _, f := range st {
+				switch f.(type) {
+				case Struct:
+				default:
+					allZero = And(allZero, isZeroTerm(f))
+				}
+			}
+		}
+		return Ite(allZero, mkBV(64, 0), mkBV(64, 1))
 	case *Map:
 		if x == nil {
 			return mkBV(64, 0)
